@@ -552,4 +552,5 @@ def run(ctx):
         "(R03.2) axis / spatial / Yadrenko / nugget variants are siblings differing only in the base function; (R03.3) cor / correlation / integral-scale / TPL helper formulas are dimensionally homogeneous; (R03.4) a formula switch on a shape "
         "parameter is the same predicate in cor and spectral_density; (R03.5) integer orders of special functions are rounded, not truncated, under an is-nearly-integer guard; (R03.6) TPL superposition weights len**(2 hurst) agree at all six sites and the "
         "three TPL correlations are siblings. NOT decided: equality with the documented closed forms as values, integral scale as an integral, percentile root finding."
+        ' (R03.11) a `cor` branch that is an elementary kernel has the closed-form integral the matching calc_integral_scale branch returns; (R03.12) model formulas read `self.dim` only; the Yadrenko variants evaluate the base function at exactly great_circle_to_chordal(zeta, geo_scale).'
     )
